@@ -56,15 +56,15 @@ def run(chk):
     from checks import lscommon
     cov["listener_traces"] = lscommon.run(chk, rnd, thorough)
     # component level: the driver reports HUNG (no Finished within 5 s of scaled timeouts) which no action explains
-    behs = chk.tlc_simulate("Forwarder", "Forwarder_sim.cfg", 500 if thorough else 60, 150, chk.seed)
-    fs = [F.script_from_behaviour(b, "sim%d" % i, rnd) for i, b in enumerate(behs)] + [F.random_script("rnd%d" % i, rnd) for i in range(500 if thorough else 40)] + [dict(s, id=s["id"] + "-%d" % rep) for rep in range(3) for s in F.recovery_stories()]
+    behs = chk.tlc_simulate("Forwarder", "Forwarder_sim.cfg", 2000 if thorough else 60, 150, chk.seed)
+    fs = [F.script_from_behaviour(b, "sim%d" % i, rnd) for i, b in enumerate(behs)] + [F.random_script("rnd%d" % i, rnd) for i in range(2000 if thorough else 40)] + [dict(s, id=s["id"] + "-%d" % rep) for rep in range(3) for s in F.recovery_stories()]
     n1, e1, rej1, kinds, stop_ms, st1 = F.run_scripts(chk, fs, 2, "c18")
     c02.handle_rejections(chk, rej1, 2, False, cov)
-    hs = [H.random_script("B-rnd%d" % i, rnd, "B") for i in range(400 if thorough else 40)]
+    hs = [H.random_script("B-rnd%d" % i, rnd, "B") for i in range(1600 if thorough else 40)]
     n2, e2, rej2, k2, st2, hung = H.run_scripts(chk, hs, "B", "c18")
     c03.handle_rejections(chk, rej2, "B", cov)
     # end to end: every upstream state x load x moment of the stop
-    scripts = stop_scripts(rnd, 300 if thorough else 0)
+    scripts = stop_scripts(rnd, 1000 if thorough else 0)
     if not thorough:
         scripts = [s for k, s in enumerate(scripts) if k % 2 == chk.seed % 2 or "refusing" in s["id"] or "silent" in s["id"]]
     n3, e3, rej3, consts = A.run_scripts(chk, scripts, FLAGS, "c18", stop_bound_ms=4000)
